@@ -431,7 +431,7 @@ async fn client_session(
                 // right after the previous holder's teardown the local session may not have
                 // processed its detach yet: refusing the name for a moment is legitimate
                 match &r {
-                    Some(Err(e)) if life.gen > 0 && tries < 200 && format!("{:?}", e).contains("DuplicatedLinkName") => {
+                    Some(Err(e)) if life.gen > 0 && tries < 8000 && format!("{:?}", e).contains("DuplicatedLinkName") => {
                         tries += 1;
                         sim::probe("name-busy-retry");
                         sim::sleep_ms(50).await;
@@ -458,7 +458,7 @@ async fn client_session(
             let r = loop {
                 let r = sim::op("attach receiver", sim::in_group(1, Receiver::builder().name(attach_name.clone()).source("q").credit_mode(CreditMode::Auto(rcredit)).attach(&mut sess))).await;
                 match &r {
-                    Some(Err(e)) if life.gen > 0 && tries < 200 && format!("{:?}", e).contains("DuplicatedLinkName") => {
+                    Some(Err(e)) if life.gen > 0 && tries < 8000 && format!("{:?}", e).contains("DuplicatedLinkName") => {
                         tries += 1;
                         sim::probe("name-busy-retry");
                         sim::sleep_ms(50).await;
@@ -680,7 +680,19 @@ pub async fn run(judge: Judge, models: Models) {
             if let (Some(c), Some(l)) = (c, l) {
                 let flushed = l.received.len() >= c.sent.len() && l.received[..c.sent.len()] == c.sent[..] && l.received.len() <= c.attempted.len() && l.received[..] == c.attempted[..l.received.len()];
                 if !flushed {
-                    let sig = if small_peer_window { "session-end-discards-transfers-held-for-the-window" } else { "" };
+                    // two recorded findings: (1) end() discards transfers still held for the peer's
+                    // window; (2) a session whose handle was dropped (no call to wait on) still has
+                    // frames in its engine when the application closes the connection, and the close
+                    // only drains the connection's own channel
+                    let si = (parse_name(name).0 / 16) as usize;
+                    let session_dropped = sess_teardowns.get(si) == Some(&SessTeardown::Drop);
+                    let sig = if small_peer_window {
+                        "session-end-discards-transfers-held-for-the-window"
+                    } else if session_dropped {
+                        "dropped-session-cut-off-by-connection-close"
+                    } else {
+                        ""
+                    };
                     sim::violation_sig(
                         "queued-frames-not-flushed",
                         sig,
